@@ -1076,7 +1076,44 @@ def check_schema_reload(u):
     return obligations, failures, samples
 
 
-CHECKS = {"schema_reload": check_schema_reload, "cluster_id_fresh": check_cluster_id_fresh, "schema_ddl": check_schema_ddl, "schema_atomic": check_schema_atomic, "seq_range_guard": check_seq_range_guard, "exits_covered": check_exits_covered, "sub_lag_stops": check_sub_lag_stops, "single_snapshot": check_single_snapshot, "offer_loops": check_offer_loops, "speedy_prealloc": check_speedy_prealloc, "from_conn": check_from_conn, "sql_actor_scoping": check_sql_actor_scoping, "local_write_sequence": check_local_write_sequence, "insert_local_changes": check_insert_local_changes, "authz_layer": check_authz_layer, "readonly_guard": check_readonly_guard, "read_pool": check_read_pool}
+def check_persist_before_publish(u):
+    """C02 "a version is never advertised as held unless the transaction that stored it committed": in the functions that book remote
+    versions, the bookkeeping rows are written (`insert_db`) before `tx.commit()`, the commit's failure is propagated (`?`), and only then
+    is the in-memory view advanced (`commit_snapshot`, `insert_partial`)."""
+    file = u["file"]
+    obligations, failures, samples = [], [], []
+    for fn in u["fns"]:
+        src, msk, o, c = _fn_body(file, fn)
+        body = msk[o:c]
+        ins = [o + m.start() for m in re.finditer(r"\.\s*insert_db\s*\(", body)]
+        com = [o + m.start() for m in re.finditer(r"\btx\s*\.\s*commit\s*\(\s*\)", body)]
+        pub = [o + m.start() for m in re.finditer(r"\.\s*(commit_snapshot|insert_partial)\s*\(", body)]
+        if not ins or not com or not pub:
+            raise LostAnchor("%s: expected insert_db(, tx.commit(), commit_snapshot(/insert_partial(" % fn)
+        n1 = "bookkeeping-rows-written-before-the-commit:%s" % fn
+        n2 = "commit-failure-propagates:%s" % fn
+        n3 = "in-memory-view-advanced-only-after-the-commit:%s" % fn
+        obligations += [n1, n2, n3]
+        if len(com) != 1:
+            failures.append((n2, _line(src, com[-1]), "%d tx.commit() calls" % len(com)))
+        cpos = com[0]
+        if not all(i < cpos for i in ins):
+            failures.append((n1, _line(src, max(ins)), "insert_db after tx.commit(): the gap rows of this batch would not be part of the transaction"))
+        e = cpos
+        while e < c and msk[e] != ";":
+            if msk[e] in "([{":
+                e = match_delim(msk, e)
+            e += 1
+        if not re.search(r"\?\s*$", msk[cpos:e]):
+            failures.append((n2, _line(src, cpos), "the result of tx.commit() is not propagated with `?`"))
+        early = [p_ for p_ in pub if p_ < cpos]
+        if early:
+            failures.append((n3, _line(src, early[0]), "the in-memory bookkeeping is advanced before tx.commit()"))
+        samples.append("%s:%d %s: insert_db < tx.commit()? < commit_snapshot/insert_partial" % (file, _line(src, cpos), fn))
+    return obligations, failures, samples
+
+
+CHECKS = {"persist_before_publish": check_persist_before_publish, "schema_reload": check_schema_reload, "cluster_id_fresh": check_cluster_id_fresh, "schema_ddl": check_schema_ddl, "schema_atomic": check_schema_atomic, "seq_range_guard": check_seq_range_guard, "exits_covered": check_exits_covered, "sub_lag_stops": check_sub_lag_stops, "single_snapshot": check_single_snapshot, "offer_loops": check_offer_loops, "speedy_prealloc": check_speedy_prealloc, "from_conn": check_from_conn, "sql_actor_scoping": check_sql_actor_scoping, "local_write_sequence": check_local_write_sequence, "insert_local_changes": check_insert_local_changes, "authz_layer": check_authz_layer, "readonly_guard": check_readonly_guard, "read_pool": check_read_pool}
 
 
 def run_unit(prop, u, tier, ctx, here):
